@@ -48,7 +48,46 @@ def _set_methods_to_operators(mod):
     ast.fix_missing_locations(mod)
 
 
+def _inline_invariant_pairs(mod):
+    """`entry = (c, s)` / `neg = (c, -s)` bound once from locals that are themselves bound once (a loop-invariant pair hoisted out of the
+    loop that stores it) is the pair itself wherever it is read afterwards."""
+    import copy
+    for fn in [x for x in ast.walk(mod) if isinstance(x, ast.FunctionDef)]:
+        stores = {}
+        for x in ast.walk(fn):
+            if isinstance(x, ast.Name) and isinstance(x.ctx, ast.Store):
+                stores[x.id] = stores.get(x.id, 0) + 1
+        params = {a.arg for a in fn.args.args}
+        pairs = {}
+        for st in ast.walk(fn):
+            if isinstance(st, ast.Assign) and len(st.targets) == 1 and isinstance(st.targets[0], ast.Name) and stores.get(st.targets[0].id) == 1 \
+                    and st.targets[0].id not in params and isinstance(st.value, ast.Tuple) and st.value.elts:
+                comps = [e.operand if isinstance(e, ast.UnaryOp) and isinstance(e.op, ast.USub) else e for e in st.value.elts]
+                if all(isinstance(c, ast.Name) and (stores.get(c.id, 0) + (c.id in params)) == 1 for c in comps):
+                    pairs[st.targets[0].id] = st
+        if not pairs:
+            continue
+
+        class T(ast.NodeTransformer):
+            def visit_Name(self, n):
+                if isinstance(n.ctx, ast.Load) and n.id in pairs and n.lineno > pairs[n.id].lineno:
+                    return ast.copy_location(copy.deepcopy(pairs[n.id].value), n)
+                return n
+
+        T().visit(fn)
+        dead = {id(st) for st in pairs.values()}
+        for holder in ast.walk(fn):
+            for f in ("body", "orelse", "finalbody"):
+                lst = getattr(holder, f, None)
+                if isinstance(lst, list) and any(id(x) in dead for x in lst):
+                    lst[:] = [x for x in lst if id(x) not in dead] or [ast.Pass()]
+    ast.fix_missing_locations(mod)
+
+
 from ..engine import FILE_NORMALISERS  # noqa: E402
+
+if _inline_invariant_pairs not in FILE_NORMALISERS.setdefault(AR, []):
+    FILE_NORMALISERS[AR].append(_inline_invariant_pairs)
 
 if _set_methods_to_operators not in FILE_NORMALISERS.setdefault(AR, []):
     FILE_NORMALISERS[AR].append(_set_methods_to_operators)
